@@ -21,11 +21,12 @@ import (
 	"flag"
 	"fmt"
 	"os"
+	"os/exec"
 	"path/filepath"
-	"runtime"
 	"runtime/debug"
 	"sort"
 	"strings"
+	"sync"
 
 	"verif/checker/internal/an"
 	"verif/checker/internal/rep"
@@ -37,6 +38,7 @@ func main() {
 	tier := flag.String("tier", "", "quick | thorough (default: $VERIF_TIER or quick)")
 	verif := flag.String("verif", "/verif", "verification directory (evidence, known findings, seeds)")
 	replay := flag.String("replay", "", "violations file: re-evaluate the property and report only the recorded instance keys")
+	variantDir := flag.String("variant", "", "internal (thorough tier): evaluate the property on the tree patched in memory with <dir>/patch.diff and print the failing instance keys as one JSON line")
 	flag.Parse()
 	if *tier == "" {
 		*tier = os.Getenv("VERIF_TIER")
@@ -60,6 +62,10 @@ func main() {
 		}
 	}
 	debug.SetGCPercent(400)
+	if *variantDir != "" {
+		runVariant(ids[0], *variantDir)
+		return
+	}
 	prog := load(nil)
 	worst := 0
 	for _, id := range ids {
@@ -153,47 +159,88 @@ func selfValidate(c *rep.Ctx, id, verif string) {
 			base[o.Key] = true
 		}
 	}
+	// Each variant is evaluated in a child process of this binary (-variant): the patched program is
+	// loaded there through an in-memory overlay, so memory stays bounded however many variants a
+	// property has, and up to three variants run at a time.
 	variant := func(dir string) (newFails []string, err error) {
-		ov, err := an.OverlayFromPatch(filepath.Join(dir, "patch.diff"))
-		if err != nil {
-			return nil, err
+		if _, err := an.OverlayFromPatch(filepath.Join(dir, "patch.diff")); err != nil {
+			return nil, err // the tree moved away from the patch: reported as skipped by the caller
 		}
-		prog2, err := an.Load(ov, "")
-		if err != nil {
-			return nil, err
+		cmd := exec.Command(os.Args[0], "-prop", id, "-variant", dir, "-verif", verif)
+		cmd.Env = os.Environ()
+		out, runErr := cmd.Output()
+		var res variantResult
+		if jerr := json.Unmarshal(lastJSONLine(out), &res); jerr != nil {
+			return nil, fmt.Errorf("variant run failed (%v): %s", runErr, firstLine(out))
 		}
-		c2 := rep.New(id, "thorough", prog2)
-		func() {
-			defer func() {
-				if r := recover(); r != nil {
-					err = fmt.Errorf("rules panicked on the variant: %v", r)
-				}
-			}()
-			props.Get(id).Run(c2)
-		}()
-		for _, o := range c2.Obs {
-			if !o.OK && !base[o.Key] {
-				newFails = append(newFails, o.Key)
+		if res.Err != "" {
+			return nil, fmt.Errorf("%s", res.Err)
+		}
+		for _, k := range res.Fails {
+			if !base[k] {
+				newFails = append(newFails, k)
 			}
 		}
-		if len(c2.Undecided) > 0 && len(newFails) == 0 {
-			newFails = append(newFails, "UNDECIDED:"+c2.Undecided[0])
+		if len(res.Undecided) > 0 && len(newFails) == 0 {
+			newFails = append(newFails, "UNDECIDED:"+res.Undecided[0])
 		}
-		prog2 = nil
-		runtime.GC()
-		return newFails, err
+		return newFails, nil
+	}
+	type vres struct {
+		fails []string
+		err   error
+	}
+	runAll := func(dirs []string) map[string]vres {
+		out := map[string]vres{}
+		var mu sync.Mutex
+		sem := make(chan struct{}, 3)
+		var wg sync.WaitGroup
+		for _, d := range dirs {
+			wg.Add(1)
+			go func(d string) {
+				defer wg.Done()
+				sem <- struct{}{}
+				defer func() { <-sem }()
+				f, e := variant(d)
+				mu.Lock()
+				out[d] = vres{f, e}
+				mu.Unlock()
+			}(d)
+		}
+		wg.Wait()
+		return out
 	}
 	dirs, _ := filepath.Glob(filepath.Join(verif, "seeded", "C*"))
 	sort.Strings(dirs)
 	nSeeds := 0
+	var seedDirs []string
 	for _, d := range dirs {
 		m := readMeta(d)
 		if m == nil || !strings.Contains(" "+m.Detected+" ", " "+id+" ") {
 			continue
 		}
+		seedDirs = append(seedDirs, d)
+	}
+	bdirs, _ := filepath.Glob(filepath.Join(verif, "seeded", "_benign", "*"))
+	sort.Strings(bdirs)
+	var benignDirs []string
+	for _, d := range bdirs {
+		m := readMeta(d)
+		if m == nil {
+			continue
+		}
+		for _, p := range m.Props {
+			if p == id {
+				benignDirs = append(benignDirs, d)
+			}
+		}
+	}
+	results := runAll(append(append([]string{}, seedDirs...), benignDirs...))
+	for _, d := range seedDirs {
+		m := readMeta(d)
 		nSeeds++
 		name := filepath.Base(d)
-		fails, err := variant(d)
+		fails, err := results[d].fails, results[d].err
 		switch {
 		case err != nil:
 			c.Note("selftest seed %s skipped: %v (the tree moved away from the seed's context)", name, err)
@@ -203,24 +250,9 @@ func selfValidate(c *rep.Ctx, id, verif string) {
 			c.Check("selftest", "seed|"+name, 0, true, "seeded change applied in memory is reported ("+strings.Join(firstN(fails, 3), ", ")+")")
 		}
 	}
-	bdirs, _ := filepath.Glob(filepath.Join(verif, "seeded", "_benign", "*"))
-	sort.Strings(bdirs)
-	for _, d := range bdirs {
-		m := readMeta(d)
-		if m == nil {
-			continue
-		}
-		mine := false
-		for _, p := range m.Props {
-			if p == id {
-				mine = true
-			}
-		}
-		if !mine {
-			continue
-		}
+	for _, d := range benignDirs {
 		name := filepath.Base(d)
-		fails, err := variant(d)
+		fails, err := results[d].fails, results[d].err
 		switch {
 		case err != nil:
 			c.Note("selftest benign variant %s skipped: %v", name, err)
@@ -236,6 +268,71 @@ func selfValidate(c *rep.Ctx, id, verif string) {
 func firstN(s []string, n int) []string {
 	if len(s) > n {
 		return s[:n]
+	}
+	return s
+}
+
+// variantResult is what a -variant child prints (one JSON line on stdout).
+type variantResult struct {
+	Fails     []string `json:"fails"`
+	Undecided []string `json:"undecided"`
+	Err       string   `json:"err,omitempty"`
+}
+
+// runVariant evaluates one property on the tree with <dir>/patch.diff applied in memory.
+func runVariant(id, dir string) {
+	var res variantResult
+	emit := func() {
+		b, _ := json.Marshal(res)
+		fmt.Println(string(b))
+	}
+	ov, err := an.OverlayFromPatch(filepath.Join(dir, "patch.diff"))
+	if err != nil {
+		res.Err = err.Error()
+		emit()
+		return
+	}
+	prog2, err := an.Load(ov, "")
+	if err != nil {
+		res.Err = err.Error()
+		emit()
+		return
+	}
+	c2 := rep.New(id, "thorough", prog2)
+	func() {
+		defer func() {
+			if r := recover(); r != nil {
+				res.Err = fmt.Sprintf("rules panicked on the variant: %v", r)
+			}
+		}()
+		props.Get(id).Run(c2)
+	}()
+	for _, o := range c2.Obs {
+		if !o.OK {
+			res.Fails = append(res.Fails, o.Key)
+		}
+	}
+	res.Undecided = c2.Undecided
+	emit()
+}
+
+func lastJSONLine(out []byte) []byte {
+	lines := strings.Split(strings.TrimSpace(string(out)), "\n")
+	for i := len(lines) - 1; i >= 0; i-- {
+		if strings.HasPrefix(strings.TrimSpace(lines[i]), "{") {
+			return []byte(lines[i])
+		}
+	}
+	return nil
+}
+
+func firstLine(out []byte) string {
+	s := strings.TrimSpace(string(out))
+	if i := strings.IndexByte(s, '\n'); i >= 0 {
+		s = s[:i]
+	}
+	if len(s) > 200 {
+		s = s[:200]
 	}
 	return s
 }
